@@ -384,27 +384,84 @@ def _r3(ctx, pkg):
                   expected=f"[x.name for x in sorted(self.{attr})]", found=found)
 
 
+def _flat_cases(v, conds=()):
+    """a phi / ifexp tree as [(conditions, leaf)]"""
+    if v[0] in ("phi", "ifexp") and len(v) == 4:
+        return _flat_cases(v[2], conds + ((v[1], True),)) + _flat_cases(v[3], conds + ((v[1], False),))
+    return [(conds, v)]
+
+
 def _r4(ctx, pkg, rule="R4"):
+    """What happens to self.reaction_list when the argument is a list of positions: every statement that can run in that
+    scenario (guards and value-selecting conditions evaluated with `reaction` a non-empty list of ints, unknown tests left open)
+    and changes the list must be the one rebuild `[r for idx, r in enumerate(self.reaction_list) if idx not in reaction]`."""
+    from ..valueflow import _bool_atoms, guards_satisfiable, split_guard
     fn = pkg.method("Network", "remove_reaction")
     ctx.saw(NF, "Network.remove_reaction")
     fl = Flow(fn, NF)
     RL = ("attr", SELF, "reaction_list")
-    R = ("param", "reaction")
-    st = [f for f in fl.facts if any(re.search(r"isinstance\(\w+, int\) for", show(simp(g))) and p for g, p in f.guards)]
-    ok = False
-    found = ""
-    if len(st) == 1 and st[0].kind == "attrstore" and st[0].target == "reaction_list":
-        v = simp(st[0].value)
-        found = show(v)[:120]
+    P = fn.args.args[1].arg if len(fn.args.args) > 1 else "reaction"
+    R = ("param", P)
+    K = "remove_reaction:list of indices"
+    p_ = re.escape(P)
+    SCEN = [(rf"^isinstance\({p_}, int\)$", False), (rf"^isinstance\({p_}, list\)$", True), (rf"^all\(\[isinstance\(\w+, int\) for \w+ in {p_}\]\)$", True),
+            (rf"^isinstance\({p_}, Reaction\)$", False), (rf"^all\(\[isinstance\(\w+, Reaction\) for \w+ in {p_}\]\)$", False)]
+
+    def reachable(guards):
+        gs = []
+        for g, pol in guards:
+            gs.extend(split_guard((simp(g), pol)))
+        atoms = set()
+        for c, _ in gs:
+            _bool_atoms(c, atoms)
+        extra = []
+        for a_ in atoms:
+            for pat, val in SCEN:
+                if re.search(pat, show(a_)):
+                    extra.append((a_, val))
+        return guards_satisfiable(gs, extra)
+
+    # everything that changes self.reaction_list, case by case
+    cases = []          # (kind, leaf | None, fact)
+    for f in fl.facts:
+        if f.kind == "attrstore" and f.target == "reaction_list" and f.extra.get("obj") == SELF:
+            for conds, leaf in _flat_cases(simp(f.value)):
+                if reachable(tuple(f.guards) + conds):
+                    cases.append(("rebuild" if f.op == "=" else "inplace", leaf, f))
+        elif f.kind == "call" and f.value is not None and f.value[0] == "meth" and simp(f.value[1]) == RL and f.target in ("pop", "remove", "clear", "insert", "append", "extend", "sort", "reverse"):
+            if reachable(f.guards):
+                cases.append(("inplace", None, f))
+        elif (f.kind == "delete" and f.target.replace(" ", "").startswith("self.reaction_list")) or (f.kind in ("store", "augstore") and f.target == "self.reaction_list"):
+            if reachable(f.guards):
+                cases.append(("inplace", None, f))
+    W = (NF, cases[0][2].line if cases else fn.lineno)
+    inplace = [c for c in cases if c[0] == "inplace"]
+    EXP = "[r for idx, r in enumerate(self.reaction_list) if idx not in reaction]"
+    BADMSG = "the index-list branch does not rebuild the list from `idx not in reaction`: in-place deletion shifts positions / mishandles repeated indices"
+    if inplace:
+        f = inplace[0][2]
+        ctx.bad(rule, K, (NF, f.line), BADMSG, expected=EXP, found="; ".join(f"{c[2].kind} {c[2].target}@{c[2].line}" for c in cases))
+        return
+    if not cases:
+        ctx.unrec(rule, K, W, "no statement that changes self.reaction_list for a list of positions was found")
+        return
+    verdicts = []
+    for _, v, f in cases:
+        ok = wrong = False
         if v[0] == "comp" and len(v[3]) == 1:
             tg, it, ifs = v[3][0]
             ok = it == ("call", ("global", "enumerate"), (RL,), ()) and tg[0] == "tuple" and v[2] == tg[1][1] and tuple(ifs) == (("cmp", ("NotIn",), (tg[1][0], R)),)
+            # a filter over the list itself with another test is understood -- and wrong (by value, by `idx in`, ...)
+            wrong = not ok and it in (RL, ("call", ("global", "enumerate"), (RL,), ()))
+        verdicts.append((ok, wrong, v, f))
+    if all(o for o, _, _, _ in verdicts):
+        ctx.ok(rule, K, W, "exactly the reactions whose position is not listed survive (repeated indices are harmless)")
+    elif any(w for _, w, _, _ in verdicts):
+        _, _, v, f = next(x for x in verdicts if x[1])
+        ctx.bad(rule, K, (NF, f.line), BADMSG, expected=EXP, found=show(v)[:120])
     else:
-        found = "; ".join(f"{f.kind} {f.target}@{f.line}" for f in st)
-    ctx.check(ok, rule, "remove_reaction:list of indices", (NF, st[0].line if st else fn.lineno),
-              "exactly the reactions whose position is not listed survive (repeated indices are harmless)" if ok else
-              "the index-list branch does not rebuild the list from `idx not in reaction`: in-place deletion shifts positions / mishandles repeated indices",
-              expected="[r for idx, r in enumerate(self.reaction_list) if idx not in reaction]", found=found)
+        _, _, v, f = next(x for x in verdicts if not x[0])
+        ctx.unrec(rule, K, (NF, f.line), f"the list built for a list of positions is not recognised: {show(v)[:120]}")
 
 
 def _r5(ctx, pkg):
@@ -530,6 +587,48 @@ MUTANTS = [
     {"name": "species-hash-reads-name", "file": "naunet/species.py", "old": '                f"{self.basename}"\n                f"{self.charge}"', "new": '                f"{self.name}"\n                f"{self.charge}"', "rules": ["R2"]},
     {"name": "remove-in-place-backwards", "file": NF, "old": "            self.reaction_list = [\n                r for idx, r in enumerate(self.reaction_list) if idx not in reaction\n            ]\n", "new": "            for idx in sorted(reaction, reverse=True):\n                del self.reaction_list[idx]\n", "rules": ["R4"]},
 ]
+_RPEQ = "        return Counter(self.reactants) == Counter(o.reactants) and Counter(\n            self.products\n        ) == Counter(o.products)"
+_LOOP = ("            if chk not in seen:\n                seen[chk] = [idx]\n            else:\n                if len(seen[chk]) >= 1:\n                    dupes.append(reactions[idx])\n"
+         "                    dupidx.append(idx)\n                seen[chk].append(idx)\n")
+_RM = ("        elif isinstance(reaction, list) and all(isinstance(r, int) for r in reaction):\n            self.reaction_list = [\n"
+       "                r for idx, r in enumerate(self.reaction_list) if idx not in reaction\n            ]\n")
 BENIGN = [
     {"name": "report-guard-gt-0", "file": NF, "old": "if len(seen[chk]) >= 1:", "new": "if len(seen[chk]) > 0:"},
+    {"name": "rpeq-guard-clause", "file": RF, "old": _RPEQ,
+     "new": "        if Counter(self.reactants) != Counter(o.reactants):\n            return False\n\n        return Counter(self.products) == Counter(o.products)"},
+    {"name": "rpeq-locals-and-if-else", "file": RF, "old": _RPEQ,
+     "new": "        same_r = Counter(o.reactants) == Counter(self.reactants)\n        if same_r:\n            return Counter(self.products) == Counter(o.products)\n        else:\n            return False"},
+    {"name": "seen-entry-fetched-once", "file": NF, "old": _LOOP,
+     "new": "            members = seen.get(chk)\n            if members is None:\n                seen[chk] = [idx]\n                continue\n            dupes.append(reactions[idx])\n"
+            "            dupidx.append(idx)\n            members.append(idx)\n"},
+    {"name": "dupes-derived-from-positions", "edits": [
+        {"file": NF, "old": "                    dupes.append(reactions[idx])\n", "new": ""},
+        {"file": NF, "old": "        dupes = []\n        dupidx = []\n", "new": "        dupidx = []\n"},
+        {"file": NF, "old": "        first = [reactions[idxes[0]] for _, idxes in seen.items() if len(idxes) > 1]\n",
+         "new": "        dupes = [reactions[i] for i in dupidx]\n        first = [reactions[idxes[0]] for idxes in seen.values() if len(idxes) > 1]\n"}]},
+    {"name": "check-list-guard-clauses-in-helper", "edits": [
+        {"file": NF, "old": "        check_list = reactions\n\n        if mode == \"brief\":\n            check_list = [Reaction(re.reactants, re.products) for re in reactions]\n"
+                            "        elif mode is not None:\n            check_list = [f\"{react:{mode}}\" for react in reactions]\n",
+         "new": "        check_list = self._keys_for(reactions, mode)\n"},
+        {"file": NF, "old": "    def find_duplicate_reaction(self, mode: str = None)",
+         "new": "    def _keys_for(self, reactions, mode):\n        if mode is None:\n            return reactions\n        if mode != \"brief\":\n            return [f\"{react:{mode}}\" for react in reactions]\n"
+                "        return [Reaction(re.reactants, re.products) for re in reactions]\n\n    def find_duplicate_reaction(self, mode: str = None)"}]},
+    {"name": "removal-predicate-chosen-per-branch", "file": NF, "old": _RM,
+     "new": "        elif isinstance(reaction, list) and all(isinstance(r, int) for r in reaction):\n            keep = lambda i, r: i not in reaction\n"
+            "            self.reaction_list = [r for i, r in enumerate(self.reaction_list) if keep(i, r)]\n"},
+]
+MUTANTS += [
+    # the same defects in the restructured spellings the rules read through
+    {"name": "rpeq-guard-clause-sets", "file": RF, "old": _RPEQ,
+     "new": "        if set(self.reactants) != set(o.reactants):\n            return False\n\n        return Counter(self.products) == Counter(o.products)", "rules": ["R1"]},
+    {"name": "rpeq-one-side-suffices", "file": RF, "old": _RPEQ,
+     "new": "        if Counter(self.reactants) == Counter(o.reactants):\n            return True\n\n        return Counter(self.products) == Counter(o.products)", "rules": ["R1"]},
+    {"name": "entry-fetched-report-needs-two", "file": NF, "old": _LOOP,
+     "new": "            members = seen.get(chk)\n            if members is None:\n                seen[chk] = [idx]\n                continue\n            if len(members) > 1:\n                dupes.append(reactions[idx])\n"
+            "                dupidx.append(idx)\n            members.append(idx)\n", "rules": ["R3"]},
+    {"name": "entry-fetched-overwritten", "file": NF, "old": _LOOP,
+     "new": "            members = seen.get(chk)\n            if members is not None:\n                dupes.append(reactions[idx])\n                dupidx.append(idx)\n            seen[chk] = [idx]\n", "rules": ["R3"]},
+    {"name": "removal-predicate-by-value", "file": NF, "old": _RM,
+     "new": "        elif isinstance(reaction, list) and all(isinstance(r, int) for r in reaction):\n            keep = lambda i, r: r not in reaction\n"
+            "            self.reaction_list = [r for i, r in enumerate(self.reaction_list) if keep(i, r)]\n", "rules": ["R4"]},
 ]
